@@ -261,6 +261,41 @@ func execC16(in c16Input) c16Obs {
 			}
 		}
 		return c16Obs{Accepted: true, Read: read, Others: others}
+	case "bulkvertex":
+		v := &gripql.Vertex{Gid: string(in.ID), Label: string(in.Label)}
+		gi, _ := db.Graph("g")
+		err := v.Validate()
+		if err == nil {
+			sa, _ := structpb.NewStruct(map[string]interface{}{"n": "changed"})
+			ch := make(chan *gdbi.GraphElement, 3)
+			ch <- &gdbi.GraphElement{Graph: "g", Vertex: gdbi.NewElementFromVertex(&gripql.Vertex{Gid: "bn", Label: "L"})}
+			ch <- &gdbi.GraphElement{Graph: "g", Vertex: gdbi.NewElementFromVertex(v)}
+			ch <- &gdbi.GraphElement{Graph: "g", Vertex: gdbi.NewElementFromVertex(&gripql.Vertex{Gid: "a", Label: "L", Data: sa})}
+			close(ch)
+			err = gi.BulkAdd(ch)
+		}
+		after := snapshotAll(db)
+		if err != nil {
+			return c16Obs{Accepted: false, Others: reflect.DeepEqual(before, after) && reflect.DeepEqual(keysBefore, rawKeys(kv)), Note: err.Error()}
+		}
+		read := true
+		for _, id := range []string{"bn", string(in.ID), "a"} {
+			if x := gi.GetVertex(id, true); x == nil {
+				read = false
+			}
+		}
+		if x := gi.GetVertex("a", true); string(in.ID) != "a" && (x == nil || x.Data["n"] != "changed") {
+			read = false
+		}
+		found := false
+		for x := range gi.VertexLabelScan(ctx, string(in.Label)) {
+			if x == string(in.ID) {
+				found = true
+			}
+		}
+		// the other graph is untouched
+		others := reflect.DeepEqual(before["V:gg"], after["V:gg"]) && reflect.DeepEqual(before["E:gg"], after["E:gg"]) && reflect.DeepEqual(before["L:gg"], after["L:gg"])
+		return c16Obs{Accepted: true, Read: read && found, Others: others}
 	case "vertex", "field", "value":
 		data := map[string]interface{}{}
 		if in.Kind == "field" {
@@ -409,7 +444,7 @@ func normJSON(x interface{}) interface{} {
 func runC16(ctx *Ctx) error {
 	ctx.EvalMod = "Eval_C16"
 	ctx.CaseTy = "c16_case"
-	ctx.Rule = "the key constructors of kvgraph/keys.go and kvindex/keys.go (graph, vertex, edge, by-source, by-destination, index entry and term keys and every prefix used to address one element, one label or one graph) on 250 random component tuples over separator bytes, prefixes of one another, reserved words and unicode, byte for byte against Model/Keys.v; graph names / vertex ids+labels / edge ids+labels+endpoints / property names over an alphabet of separator and control bytes, punctuation, unicode and internally reserved words, to length 3 (exhaustive to length 2 in thorough), plus every ASCII byte on its own and behind a letter as a graph name, written into a store that already holds elements whose ids are prefixes of one another; property values: nesting, empty containers, numeric extremes; non-trivial = accepted write; distinct by input"
+	ctx.Rule = "the key constructors of kvgraph/keys.go and kvindex/keys.go (graph, vertex, edge, by-source, by-destination, index entry and term keys and every prefix used to address one element, one label or one graph) on 250 random component tuples over separator bytes, prefixes of one another, reserved words and unicode, byte for byte against Model/Keys.v; graph names / vertex ids+labels / edge ids+labels+endpoints / property names over an alphabet of separator and control bytes, punctuation, unicode and internally reserved words, to length 3 (exhaustive to length 2 in thorough), plus every ASCII byte on its own and behind a letter as a graph name, written into a store that already holds elements whose ids are prefixes of one another (vertex ids and labels also inside a three-element gi.BulkAdd between a new vertex and an overwrite: refused as a whole without a trace, raw keys compared, or stored as a whole); property values: nesting, empty containers, numeric extremes; non-trivial = accepted write; distinct by input"
 	var inputs []c16Input
 	if ctx.Replay != nil {
 		var in c16Input
@@ -455,8 +490,18 @@ func runC16(ctx *Ctx) error {
 					c16Input{Driver: "pebble", Kind: "vertex", ID: bstr(c), Label: "L"})
 			}
 		}
+		// a bulk load (gi.BulkAdd, what the server's BulkAdd stream and `grip load` use) that carries the element between a new
+		// vertex and an overwrite of a stored one: refused as a whole and without a trace, or stored as a whole
+		for _, c := range words {
+			for _, d := range []string{"badger", "pebble"} {
+				inputs = append(inputs, c16Input{Driver: d, Kind: "bulkvertex", ID: "nv", Label: bstr(c)}, c16Input{Driver: d, Kind: "bulkvertex", ID: bstr(c), Label: "L"})
+			}
+		}
 		for _, d := range drivers {
 			for i, c := range cands {
+				if i%6 == 0 {
+					inputs = append(inputs, c16Input{Driver: d, Kind: "bulkvertex", ID: "nv", Label: bstr(c)})
+				}
 				inputs = append(inputs, c16Input{Driver: d, Kind: "graph", G: bstr(c)})
 				inputs = append(inputs, c16Input{Driver: d, Kind: "vertex", ID: bstr(c), Label: "L"})
 				inputs = append(inputs, c16Input{Driver: d, Kind: "vertex", ID: "nv", Label: bstr(c)})
@@ -490,7 +535,7 @@ func runC16(ctx *Ctx) error {
 			inputs = append(inputs, c16Input{Driver: "none", Kind: "keys", G: pk(), ID: pk(), Label: pk(), From: pk(), To: pk(), Field: pk()})
 		}
 	}
-	kinds := map[string]string{"graph": "KGraphName", "vertex": "KVertex", "edge": "KEdge", "field": "KFieldName", "value": "KValue", "keys": "KKeys"}
+	kinds := map[string]string{"graph": "KGraphName", "vertex": "KVertex", "bulkvertex": "KVertex", "edge": "KEdge", "field": "KFieldName", "value": "KValue", "keys": "KKeys"}
 	for _, in := range inputs {
 		if in.Kind == "keys" {
 			g, v, l, sr, d, f := string(in.G), string(in.ID), string(in.Label), string(in.From), string(in.To), string(in.Field)
